@@ -145,34 +145,34 @@ fn lagrange<const S: usize>() {
 }
 
 crate::harnesses! { REG;
-    /// quick required | Radix2 / General domain construction over F_17 for ALL requested sizes n in 0..=20: size >= n and minimal power of two, None exactly when n > 16 (no subgroup), generator of EXACT order, inverse / size_inv / offset fields consistent, get_root_of_unity agrees
-    #[unwind(22)]
+    /// quick required unwindset=>::pow:8,compute_powers:18 | Radix2 / General domain construction over F_17 for ALL requested sizes n in 0..=20: size >= n and minimal power of two, None exactly when n > 16 (no subgroup), generator of EXACT order, inverse / size_inv / offset fields consistent, get_root_of_unity agrees
+    #[unwind(70)]
     fn c07_domain_new() { domain_new() }
-    /// quick required | coset of size 4 with ALL non-zero offsets: element(i) and elements() order for ALL i, offset fields, evaluate_vanishing_polynomial(tau) = tau^n - h^n for ALL tau
-    #[unwind(20)]
+    /// quick required unwindset=>::pow:8,compute_powers:18 | coset of size 4 with ALL non-zero offsets: element(i) and elements() order for ALL i, offset fields, evaluate_vanishing_polynomial(tau) = tau^n - h^n for ALL tau
+    #[unwind(70)]
     fn c07_coset_elements_4() { coset_elements::<4>() }
-    /// quick required | coset of size 8 with ALL non-zero offsets: element(i), elements(), vanishing polynomial
-    #[unwind(20)]
+    /// quick required unwindset=>::pow:8,compute_powers:18 | coset of size 8 with ALL non-zero offsets: element(i), elements(), vanishing polynomial
+    #[unwind(70)]
     fn c07_coset_elements_8() { coset_elements::<8>() }
-    /// quick required | FFT / IFFT size 4, input length 4, ALL coefficients, ALL coset offsets: every output equals Horner evaluation at h*g^i; ifft(fft(c)) = c
-    #[unwind(20)]
+    /// quick required unwindset=>::pow:8,compute_powers:18 | FFT / IFFT size 4, input length 4, ALL coefficients, ALL coset offsets: every output equals Horner evaluation at h*g^i; ifft(fft(c)) = c
+    #[unwind(70)]
     fn c07_fft_4_full() { fft_check::<4, 4>(true) }
-    /// quick required | FFT / IFFT size 4, input lengths 0, 1, 2 (degree-aware path: len*2 <= size) and 3, subgroup (offset 1), ALL coefficients
-    #[unwind(20)]
+    /// quick required unwindset=>::pow:8,compute_powers:18 | FFT / IFFT size 4, input lengths 0, 1, 2 (degree-aware path: len*2 <= size) and 3, subgroup (offset 1), ALL coefficients
+    #[unwind(70)]
     fn c07_fft_4_short() { fft_check::<4, 0>(false); fft_check::<4, 1>(false); fft_check::<4, 2>(false); fft_check::<4, 3>(false) }
-    /// quick required | FFT / IFFT size 8, input length 8, subgroup, ALL coefficients
-    #[unwind(20)]
+    /// quick required unwindset=>::pow:8,compute_powers:18 | FFT / IFFT size 8, input length 8, subgroup, ALL coefficients
+    #[unwind(70)]
     fn c07_fft_8_full() { fft_check::<8, 8>(false) }
-    /// quick required | FFT / IFFT size 8 on a coset (ALL offsets), input lengths 3 (degree-aware) and 5
-    #[unwind(20)]
+    /// quick required unwindset=>::pow:8,compute_powers:18 | FFT / IFFT size 8 on a coset (ALL offsets), input lengths 3 (degree-aware) and 5
+    #[unwind(70)]
     fn c07_fft_8_coset_short() { fft_check::<8, 3>(true); fft_check::<8, 5>(true) }
-    /// thorough required timeout=3000 | FFT / IFFT size 16 (the maximal domain of F_17), lengths 16, 7 and 4 on a coset, ALL coefficients
-    #[unwind(20)]
+    /// thorough required timeout=3000 unwindset=>::pow:8,compute_powers:18 | FFT / IFFT size 16 (the maximal domain of F_17), lengths 16, 7 and 4 on a coset, ALL coefficients
+    #[unwind(70)]
     fn c07_fft_16() { fft_check::<16, 16>(true); fft_check::<16, 7>(true); fft_check::<16, 4>(true) }
-    /// quick required | evaluate_all_lagrange_coefficients on a coset of size 4: ALL offsets, ALL tau (inside the coset — the special branch — and outside), ALL polynomials of degree < 4: sum L_i(tau) p(x_i) = p(tau)
-    #[unwind(20)]
+    /// quick required unwindset=>::pow:8,compute_powers:18 | evaluate_all_lagrange_coefficients on a coset of size 4: ALL offsets, ALL tau (inside the coset — the special branch — and outside), ALL polynomials of degree < 4: sum L_i(tau) p(x_i) = p(tau)
+    #[unwind(70)]
     fn c07_lagrange_4() { lagrange::<4>() }
-    /// thorough required timeout=3000 | Lagrange coefficients on a coset of size 8
-    #[unwind(20)]
+    /// thorough required timeout=3000 unwindset=>::pow:8,compute_powers:18 | Lagrange coefficients on a coset of size 8
+    #[unwind(70)]
     fn c07_lagrange_8() { lagrange::<8>() }
 }
